@@ -65,6 +65,16 @@ def build(c):
                     m.center = seen[k]  # coincident centres given as ONE Point object
                 else:
                     seen[k] = m.center
+    if c.get("noise"):
+        # the force stage perturbs every centre IN PLACE before the relocation (add_noise), fixed modules included: where a module is
+        # when the relocation starts is where its centre says, and that is where a fixed module stays
+        W, H = die.width, die.height
+        for m, (dx, dy) in zip(nl.modules, c["noise"] * len(nl.modules)):
+            if m.center is None:
+                continue
+            nx, ny = m.center.x + dx * float(u) / 64, m.center.y + dy * float(u) / 64
+            if 0 <= nx <= W and 0 <= ny <= H:
+                m.center.x, m.center.y = nx, ny
     return die
 
 
@@ -149,6 +159,8 @@ def run_layout(c):
         cls.append("shared-point-objects")
     if c.get("read_first") and c["nets"]:
         cls.append("wire-length-read-before")
+    if c.get("noise") and "fixed" in kinds:
+        cls.append("centres-perturbed-in-place-before")
     return dict(nt=kinds.count("fixed") >= 1 and len(kinds) - kinds.count("fixed") >= 2 and len(c["nets"]) >= 1, cls=cls)
 
 
@@ -260,7 +272,8 @@ def design_s(draw, bestof=False):
         ar = draw(st.sampled_from([2, 2, 3, 4, 5]))
         nets.append(dict(m=[names[draw(_i(0, len(names) - 1))] for _ in range(ar)], w=draw(st.sampled_from([None, None, 1, 2, 0.5, 10, 3.5]))))
     c = dict(unit=unit, W=W, H=H, modules=list(mods), nets=nets, squares=draw(_i(0, 2)) == 0, share_points=draw(_i(0, 2)) == 0,
-             read_first=draw(_i(0, 2)) == 0)
+             read_first=draw(_i(0, 2)) == 0,
+             noise=[[draw(_i(-3, 3)), draw(_i(-3, 3))] for _ in range(3)] if draw(_i(0, 2)) == 0 else None)
     if bestof:
         c["max_iter"] = draw(_i(1, 8))
     else:
@@ -353,7 +366,7 @@ def subchecks():
             desc="the same layout in two child interpreters with different PYTHONHASHSEED values"),
         Sub("layout", run_layout, strategy=design_s(False), n_quick=6000, n_thorough=60000,
             required=("something-moved", "coincident-centres", "centre-on-border", "terminal", "movable-hard-module", "zero-iterations", "squares-created-before",
-                      "shared-point-objects", "wire-length-read-before")),
+                      "shared-point-objects", "wire-length-read-before", "centres-perturbed-in-place-before")),
         Sub("bestof", run_bestof, strategy=design_s(True), n_quick=800, n_thorough=8000, shrink_quick=False,
             required=("bestof-spread",)),
     ]
